@@ -10,7 +10,13 @@ from scen_sys import Msg
 ENTRY_POINTS = ('spawn', 'spawn_owning', 'spawn_default', 'spawn_on_stream', 'build_spawn', 'build_bounded_spawn', 'build_spawn_owning',
                 'build_recreate_spawn', 'build_non_restartable_spawn', 'build_stream_spawn', 'build_bounded_stream_spawn',
                 'build_stream_spawn_owning', 'from_registry', 'build_register')
-STRATEGY = {'build_recreate_spawn': 'RecreateFromDefault', 'build_non_restartable_spawn': 'NonRestartable'}
+# entry points used by the restart-strategy programs (C07) only
+MORE_ENTRY_POINTS = ('build_recreate_spawn_owning', 'build_non_restartable_spawn_owning')
+# the strategy the user asked for, by the meaning of the builder chain (what the oracle expects)
+CONFIGURED = {'build_recreate_spawn': 'RecreateFromDefault', 'build_recreate_spawn_owning': 'RecreateFromDefault',
+              'build_non_restartable_spawn': 'NonRestartable', 'build_non_restartable_spawn_owning': 'NonRestartable',
+              'build_stream_spawn': 'NonRestartable', 'build_bounded_stream_spawn': 'NonRestartable', 'build_stream_spawn_owning': 'NonRestartable'}
+STRATEGY = CONFIGURED
 
 
 class EntryProgram(RegistryProgram):
@@ -51,17 +57,17 @@ class EntryProgram(RegistryProgram):
             s2, r = self.call(st, 'DefaultSpawnable::spawn_default', []); yield done(s2, r)
         elif ep == 'spawn_on_stream':
             s2, r = self.call(st, 'StreamSpawnable::spawn_on_stream', [actor, stream]); yield done(s2, r)
-        elif ep in ('build_spawn', 'build_bounded_spawn', 'build_spawn_owning', 'build_recreate_spawn', 'build_non_restartable_spawn'):
+        elif ep in ('build_spawn', 'build_bounded_spawn', 'build_spawn_owning', 'build_recreate_spawn', 'build_non_restartable_spawn') + MORE_ENTRY_POINTS:
             s2, b = builder(st)
             if ep == 'build_bounded_spawn':
                 s2, b = self.call(s2, 'BaseActorBuilder::<A, P>::bounded', [b, capacity(s2)])
             else:
                 s2, b = self.call(s2, 'BaseActorBuilder::<A, P>::unbounded', [b])
-            if ep == 'build_recreate_spawn':
+            if ep.startswith('build_recreate_spawn'):
                 s2, b = self.call_named(s2, 'recreate_from_default', 'ActorBuilderWithChannel', b)
-            if ep == 'build_non_restartable_spawn':
+            if ep.startswith('build_non_restartable_spawn'):
                 s2, b = self.call_named(s2, 'non_restartable', 'ActorBuilderWithChannel', b)
-            if ep == 'build_spawn_owning':
+            if ep.endswith('spawn_owning'):
                 s2, o = self.call_named(s2, 'spawn_owning', 'ActorBuilderWithChannel', b); yield done(s2, o, 'o')
             else:
                 s2, a = self.call_named(s2, 'spawn', 'ActorBuilderWithChannel', b); yield done(s2, a)
@@ -85,6 +91,18 @@ class EntryProgram(RegistryProgram):
             yield s2, fut
         else:
             raise Unsupported(f"unknown entry point {ep}")
+
+    def call_fn(self, st, fn, args, allow_fork=False):
+        r = super().call_fn(st, fn, args, allow_fork)
+        # the builder's *type* carries the restart strategy: a builder method returning
+        # ActorBuilderWithChannel<A, P, X> binds R := X for every later call on that value (monomorphisation)
+        import re
+        m = re.search(r'ActorBuilderWithChannel<A, P, (\w+)>', fn.ret_type or '')
+        if m and m.group(1) in self.sys.STRATEGIES:
+            self.sys.strategy = m.group(1)
+        elif re.search(r'\bStreamActorBuilder<', fn.ret_type or ''):
+            self.sys.strategy = 'NonRestartable'
+        return r
 
     def call_named(self, st, meth, selfty, arg):
         """call an inherent method that exists in several impl blocks of builder.rs: pick by the self type"""
@@ -131,6 +149,32 @@ def oracle_entry(tr, status, ep):
             v.append(f"after {ep}: join after a graceful stop yielded {o['result']}")
     if any(e[0] == 'task_cancelled' for e in tr):
         v.append(f"{ep}: the actor task was cancelled ({[e for e in tr if e[0] == 'task_cancelled'][0][2]})")
+    return v
+
+
+def oracle_restart_strategy(tr, configured):
+    """C07: every dequeued restart request is served by the strategy the program configured: default = stopped then
+    started on the same value, recreate = stopped, Default::default(), started, non-restartable = ignored"""
+    v = []
+    idx = [i for i, e in enumerate(tr) if e[0] == 'chan_pop' and str(e[2]) == 'Restart']
+    for i in idx:
+        seg = []
+        complete = False
+        for e in tr[i + 1:]:
+            if e[0] in ('chan_pop', 'task_done') or (e[0] == 'sched' and e[1] != 'loop' and False):
+                complete = True
+                break
+            if e[0] in ('task_killed', 'task_panicked', 'user_panic', 'panic', 'task_cancelled'):
+                break
+            if e[0] == 'user_call' and e[1] in ('stopped', 'started'):
+                seg.append(e[1])
+            elif e[0] == 'default_actor':
+                seg.append('default')
+        if not complete:
+            continue
+        want = {'RestartOnly': ['stopped', 'started'], 'RecreateFromDefault': ['stopped', 'default', 'started'], 'NonRestartable': []}[configured]
+        if seg != want:
+            v.append(f"a restart request of an actor configured as {configured} produced {seg}, expected {want}")
     return v
 
 
